@@ -53,6 +53,7 @@ func dlCheckAcquireMetrics(c dlCase, b *dlBuilt, i int, e dlEv, ok bool, busyBef
 				bin = "<unknown>"
 			}
 			want := float64(perKey[e.Key] + 1)
+			_ = c
 			if bin == "<unknown>" {
 				want = float64(perKey["zz"] + 1)
 			}
